@@ -24,6 +24,8 @@ import time
 
 VERIF = os.path.dirname(os.path.dirname(os.path.abspath(__file__)))
 REPO = os.environ.get("VERIF_REPO", "/repo")
+# evidence and replay files of a seedcheck run (VERIF_REPO set) must not overwrite those of the registered checks
+OUTROOT = "/verif" if REPO == "/repo" else "/tmp/verif-seed-out"
 SPEC = os.path.join(VERIF, "spec")
 JAR = "/opt/veriftools/tla/tla2tools.jar:/opt/veriftools/tla/CommunityModules-deps.jar"
 NCPU = os.cpu_count() or 4
@@ -81,7 +83,16 @@ class Ctx:
         if os.path.exists(out):
             return out
         cmd = ["go", "build", "-tags", "verif"] + (["-race"] if race else []) + ["-o", out, "./cmd/vdrive"]
-        p = sh(cmd, timeout=600, env=goenv(), cwd=os.path.join(VERIF, "harness"), ok=None)
+        hdir = os.path.join(VERIF, "harness")
+        if REPO != "/repo":
+            # bin/seedcheck only: build the same harness against a scratch worktree (VERIF_REPO) so that seeded changes never touch /repo.
+            # The registered commands never set VERIF_REPO.
+            hdir = os.path.join(self.work, "harness")
+            if not os.path.exists(hdir):
+                shutil.copytree(os.path.join(VERIF, "harness"), hdir)
+                gm = open(os.path.join(hdir, "go.mod")).read().replace("=> /repo", "=> " + REPO)
+                open(os.path.join(hdir, "go.mod"), "w").write(gm)
+        p = sh(cmd, timeout=600, env=goenv(), cwd=hdir, ok=None)
         if p.returncode != 0:
             raise Infra("harness does not build against %s:\n%s" % (REPO, p.stdout[-3000:]))
         if not race:
@@ -230,8 +241,8 @@ def write_evidence(ctx, violations, known):
     ev = dict(property_id=ctx.pid, tier=ctx.tier, seed=ctx.seed, level=ctx.level, coverage=cov,
               assumptions=ctx.assumptions, wall_s=round(time.time() - ctx.t0, 1), violations=violations,
               known_findings_seen=known, unreproduced_leads=ctx.leads[:20])
-    os.makedirs(os.path.join(VERIF, "evidence"), exist_ok=True)
-    with open(os.path.join(VERIF, "evidence", ctx.pid + ".json"), "w") as f:
+    os.makedirs(os.path.join(OUTROOT, "evidence"), exist_ok=True)
+    with open(os.path.join(OUTROOT, "evidence", ctx.pid + ".json"), "w") as f:
         json.dump(ev, f, indent=1, sort_keys=True)
         f.write("\n")
 
@@ -250,7 +261,7 @@ def finish(ctx, confirm):
             ctx.leads.append(dict(key=c["key"], why=c.get("why", "")))
     known = load_known(ctx.pid)
     nviol, nknown = 0, 0
-    rdir = os.path.join(VERIF, "replays", ctx.pid)
+    rdir = os.path.join(OUTROOT, "replays", ctx.pid)
     for c in confirmed:
         if c["key"] in known:
             nknown += 1
